@@ -224,9 +224,18 @@ class TwoArgError(Exception):
     pass
 
 
+def is_transient(kind):
+    """kind 7: the connection drops on the first two attempts only - the retries heal it, the task succeeds"""
+    return kind % 8 == 7
+
+
 def task_error(kind, x):
     """the exceptions tasks fail with: differently shaped .args (a syscall error has two, some have none); all name the id"""
-    k = kind % 5
+    k = kind % 8
+    if k in (5, 7):
+        return BrokenPipeError("boom-%s" % x)          # a dropped connection: the task is retried net_retry times (kind 7 heals)
+    if k == 6:
+        return ConnectionResetError(104, "boom-%s" % x)
     if k == 0:
         return ValueError("boom-%s" % x)
     if k == 1:
@@ -238,7 +247,7 @@ def task_error(kind, x):
     return UnicodeDecodeError("utf-8", b"boom-%d" % x, 0, 1, "boom-%s" % x)
 
 
-def run_case(n, par, max_tasks, fail_ids, tolerate, choices, consumer_delays, use_run=False, max_steps=None, unpicklable_ids=(), fail_kind=0):
+def run_case(n, par, max_tasks, fail_ids, tolerate, choices, consumer_delays, use_run=False, max_steps=None, unpicklable_ids=(), fail_kind=0, callback=None):
     """runs Parallel(f).irun(range(n)) under the schedule; returns a dict describing the outcome"""
     import annet.parallel as P
     logging.disable(logging.CRITICAL)
@@ -259,9 +268,13 @@ def run_case(n, par, max_tasks, fail_ids, tolerate, choices, consumer_delays, us
 
     unpicklable_ids = set(unpicklable_ids or ())
 
+    attempts = {}
+
     def f(x):
         if x in fail_ids:
-            raise task_error(fail_kind + x, x)
+            attempts[x] = attempts.get(x, 0) + 1
+            if not is_transient(fail_kind + x) or attempts[x] <= 2:
+                raise task_error(fail_kind + x, x)
         if x in unpicklable_ids:
             return {"value": x * 2 + 1, "render": (lambda: x)}   # a container holding something that cannot be pickled
         return x * 2 + 1
@@ -271,6 +284,15 @@ def run_case(n, par, max_tasks, fail_ids, tolerate, choices, consumer_delays, us
         P.mp, P.time, P.os = fake.mp, fake.time, _FakeOs()
         try:
             pool = P.Parallel(f).tune(parallel=par, max_tasks=max_tasks)
+            if callback:
+                bad = set(callback["raise_for"])
+
+                def cb(_pool, tr):
+                    # a reporting callback: hands the outcome on, but trips over some of them
+                    if tr.device_id in bad:
+                        raise RuntimeError("cb-boom-%s" % tr.device_id)
+                    return tr
+                pool.add_callback(cb, in_thread=bool(callback.get("in_thread")))
             ids = list(range(n))
             try:
                 if use_run:
